@@ -81,6 +81,7 @@ open spec fn rely_st(&self) -> St { St { ok: self.inv(), ..self.rst() } }
 open spec fn observes_finish() -> bool { true }
 open spec fn replace_is_atomic() -> bool { false }
 open spec fn accepts_replace(&self) -> bool { true }
+#[verifier::prophetic] open spec fn fobs(&self) -> Obs<Self::Error> { self.inner().fobs() }
 ''', '    ')
 for name, ev in (('equal', 'Ev::Equal(old_index, new_index, len)'), ('delete', 'Ev::Delete(old_index, old_len, new_index)'), ('insert', 'Ev::Insert(old_index, new_index, new_len)')):
     m = o.find('fn %s(' % name, im)
@@ -143,9 +144,10 @@ o.after('loop', '''
         it__.obeys_prophetic_iter_laws(), it__.remaining() == ops1.skip(k).map_values(|x: DiffOp| &x),
         self.hist@ == pre.hist@, self.rst0@ == pre.rst0@, self.ist0@ == pre.ist0@, self.old == pre.old, self.new == pre.new,
         rel == pre.rel(), r0 == pre.rst0_(), h == pre.hist_(), bc == pre.bcur(), irel == pre.inner().rely_rel(), i0 == pre.ist0_(),
-        pre.inv(), wf(pre.rst()),
+        pre == *vstd::prelude::old(self), pre.inv(), wf(pre.rst()),
         ops_full(self.old, self.new, ops1, bc, false), r0.lvl >= 2 ==> ops_full(self.old, self.new, ops1, bc, true),
         esum(ops1, ops1.len() as int) == pre.rst().eqs - r0.eqs,
+        self.d.fobs() == pre.inner().fobs(),
         !self.d.failed(), self.d.relies() == pre.inner().relies(), self.d.rely_rel() == irel, self.d.accepts_replace() == pre.inner().accepts_replace(),
         self.d.trace() == evs_of(ops1.take(k)),
         self.d.relies() ==> self.d.rely_st() == run_rel(irel, i0, evs_of(ops1.take(k))) && wf(self.d.rely_st())
@@ -164,6 +166,8 @@ proof {
     }
     if self.d.relies() { lemma_op_step(self.old, self.new, irel, ops1, k, bc, self.d.rely_st()); }
     assert(!(ops1[k] is Replace)) by { assert(op_ok(self.old, self.new, ops1, k, bc, false)); }
+    assert(self.d.fobs() == pre.inner().fobs());
+    assert(pre.fobs() == pre.inner().fobs());
 }
 ''', '            ')
 j = o.find('op.apply_to_hook(&mut self.d)?;', m)
